@@ -56,6 +56,12 @@ class T(ast.NodeTransformer):
     def visit_Name(self, n: ast.Name):
         return ast.Name(id=swap_ident(n.id) if n.id not in ("self", "np", "cls") else n.id, ctx=n.ctx)
 
+    def visit_Constant(self, n: ast.Constant):
+        # a member NAME passed as a string (`getattr(helper, "_rows_dimension")`, a dispatch key) is an identifier too
+        if isinstance(n.value, str) and n.value.isidentifier():
+            return ast.Constant(value=swap_ident(n.value))
+        return n
+
     def visit_Attribute(self, n: ast.Attribute):
         v = self.visit(n.value)
         attr = n.attr
